@@ -1,3 +1,4 @@
+import Proofs.Lemmas.QueueM
 import Model.Attempt
 import Proofs.Lemmas.Attempt
 /-!
@@ -97,5 +98,24 @@ theorem factory_none_no_bounce (cfg : Cfg) (hf : cfg.factoryBounces = false) (pa
 example : (attempt ⟨fun _ => none, true, true⟩ ⟨[10, 11, 12, 13], 0⟩
     (.mapping [(10, .perm 5), (11, .temp 7), (12, .perm 5), (13, .temp 8)])).bounces
     = [⟨5, [10, 12], false⟩, ⟨7, [11], true⟩, ⟨8, [13], true⟩] := by decide
+
+/-! ## Over the composed machine (Model/QueueM.lean): bounces under every interleaving -/
+section composed
+open Slimta.QM
+variable {fb : Bool} {pre : List (Nat × Nat)} {rc : Nat → List Rcpt} {nn : Nat → Bool}
+
+/-- **No bounce for a null sender, ever**: in every reachable state of the composed machine the list of bounces asked for a
+    message with an empty sender is empty — so a bounce that itself fails is dropped. -/
+theorem null_sender_no_bounce_interleaved (hpre : (pre.map (·.1)).Nodup) (hrc : ∀ id ∈ pre.map (·.1), (rc id).Nodup) {q : State}
+    (hr : Reach fb (start pre rc nn) q) (id : Nat) (hn : q.nonNull id = false) : q.bounces id = [] :=
+  (reach_inv hpre hrc hr).led.quiet id (by simp [hn])
+
+/-- **Whoever failed for good is named in a bounce quoting the reply it failed with**, under every interleaving. -/
+theorem failed_are_bounced_interleaved (hpre : (pre.map (·.1)).Nodup) (hrc : ∀ id ∈ pre.map (·.1), (rc id).Nodup) {q : QM.State}
+    (hr : QM.Reach fb (QM.start pre rc nn) q) (id : Nat) (x : Rcpt) (r : ReplyId) (hx : (x, r) ∈ q.failed id)
+    (hb : (fb && q.nonNull id) = true) : ∃ b ∈ q.bounces id, b.reply = r ∧ x ∈ b.rcpts :=
+  (QM.reach_inv hpre hrc hr).led.bounced id x r hx hb
+
+end composed
 
 end Slimta.C13
